@@ -242,6 +242,12 @@ class DtcDop(DopBase):
 
         self.compu_method._resolve_odxlinks(odxlinks)
 
+        # the list of DTCs is rebuilt here, i.e., the DTCs which are
+        # inherited from linked DTC-DOPs need to be added again when
+        # the short name references are resolved. (The database may
+        # be refreshed multiple times.)
+        self._init_finished = False
+
         self._dtcs = NamedItemList[DiagnosticTroubleCode]()
         for dtc_proxy in self.dtcs_raw:
             if isinstance(dtc_proxy, DiagnosticTroubleCode):
